@@ -47,6 +47,9 @@ pub const ANY: &'static str = "Any";
 /// A-STD-COLL: iterating a HashSet yields each member once, in the set's order
 pub uninterp spec fn mem(s: HashSet<TrueName>) -> Seq<TrueName>;
 
+// ---- /repo functions with ASSUMED contracts in this unit (bodies pinned) --------------------------------------------------------
+//@@ ASSUME src/check/context/clss/mod.rs | impl LookupClass<&StringName, Class> for Context | class
+//@@ ASSUME src/check/context/clss/mod.rs | impl LookupClass<&TrueName, Class> for Context | class
 // ---- the declared class order -------------------------------------------------------------------------------------------------
 /// `c` is below `o`: the least relation closed under the rules R1-R4 (stated as axioms: they DEFINE the relation the search is
 /// checked against; the search may answer `true` only when the relation holds, and must answer `true` for R1 and R2)
